@@ -1,3 +1,4 @@
+import IoraModel.Model.TsyncFacts
 /-!
 # Model of `Transport::connectSync` / `ITransport::connectSyncCancellable` (C04)
 
@@ -18,7 +19,10 @@ Every step appends what it did to `log`; the theorems are statements about `log`
 -/
 namespace Iora.ConnectSync
 
-inductive Err | timeout | shuttingDown | cancelled | closed   -- `closed` = the reason the engine's onClose carried
+/-- `timeout` = connectSync's OWN timeout exit; `closed` = the error the engine's onClose delivered to the waiter (its reason class —
+refused, unresolved, engine-side connect timeout, TLS failure, … — is carried per session by `ConnectSyncX.reason`);
+`refused` = `engine->connect` itself returned an error (e.g. the queue is closed) -/
+inductive Err | timeout | shuttingDown | cancelled | closed | refused
   deriving DecidableEq, Repr
 
 inductive Res | ok (sid : Nat) | err (e : Err)
@@ -101,6 +105,7 @@ inductive Step
   | cancel (c : Nat)
   | cEnter (c : Nat)
   | cConnect (c : Nat)
+  | cRefuse (c : Nat)                  -- `engine->connect` returns an error synchronously (no id, nothing enqueued)
   | cRegister (c : Nat)
   | cPark (c : Nat)
   | cWake (c : Nat) (timedOut : Bool)
@@ -213,6 +218,13 @@ def doConnect (s : State) (c : Nat) : State :=
              log := s.log ++ [.created c s.nextSid] }
   | _ => s
 
+/-- mirrors transport_impl.hpp::Transport::connectSync — the `result.isErr()` branch: the engine's error is returned as is, the
+lock is released by the `unique_lock` destructor, nothing was registered and the connect guard was never constructed -/
+def doRefuse (s : State) (c : Nat) : State :=
+  match (s.callers c).pc with
+  | .haveLock => ret { s with lock := none } c none (.err .refused)
+  | _ => s
+
 def doRegister (s : State) (c : Nat) : State :=
   match (s.callers c).pc with
   | .connected sid =>
@@ -308,6 +320,7 @@ def step (s : State) : Step → State
   | .cancel c => doCancel s c
   | .cEnter c => doEnter s c
   | .cConnect c => doConnect s c
+  | .cRefuse c => doRefuse s c
   | .cRegister c => doRegister s c
   | .cPark c => doPark s c
   | .cWake c timedOut => doWake s c timedOut
@@ -326,5 +339,100 @@ def run (s : State) : List Step → State
   | st :: rest => run (step s st) rest
 
 def init : State := {}
+
+/-! ## instantiation from the regenerated skeleton (DESIGN §2.1, §6.3)
+
+`step` above is the model of the code AS THE SKELETON FACTS DESCRIBE IT.  `stepC cfg` is what runs (driver) and what the
+theorems of `Props/C04.lean` quantify over: where a fact does not hold of the working tree it takes the corresponding
+*other* behaviour (lock released between `engine->connect` and the registration; no `abandoned` mark / no `engine->close` in
+the window; an `onConnect` handler that erases an abandoned record), for which the theorems are NOT claimed — they carry the
+hypothesis `cfg.Good`, discharged for `genCfg` by `decide` (`Props/C04.skeleton_conforms`). -/
+
+structure Cfg where
+  /-- `syncMutex` is held from before `engine->connect` through registration and guard into `wait_for` -/
+  lockHeld : Bool
+  /-- after the wait: `abandoned` is set under the lock, then exactly one unlock window containing only `engine->close` -/
+  closeWindow : Bool
+  /-- both handlers complete the waiter under the lock and notify outside; `onConnect` checks `abandoned` before erasing -/
+  handlers : Bool
+  /-- `wait_for` waits for the caller's timeout; the cancellable wrapper's sub-interval, deadline and sub-timeouts are the
+  documented expressions (the "in time" tie: durations themselves are not modelled, a timeout is a scheduler choice) -/
+  timing : Bool
+  /-- the requested host/port/TLS mode are passed to `engine->connect` unchanged and an engine error is returned as is -/
+  args : Bool
+
+def Cfg.Good (cfg : Cfg) : Prop :=
+  cfg.lockHeld = true ∧ cfg.closeWindow = true ∧ cfg.handlers = true ∧ cfg.timing = true ∧ cfg.args = true
+
+def genCfg : Cfg :=
+  { lockHeld := TsyncFacts.connectLockHeld, closeWindow := TsyncFacts.connectCloseWindow,
+    handlers := TsyncFacts.handlersCompleteUnderLock, timing := TsyncFacts.connectTimingArgs,
+    args := TsyncFacts.connectPassesArgs }
+
+/-- the timeout exit WITHOUT the `abandoned` mark (the tree before fix F16) -/
+def afterWaitU (s : State) (c sid : Nat) : State :=
+  match (s.callers c).done with
+  | some r => ret { s with activeConnects := s.activeConnects - 1 } c (some sid) r
+  | none =>
+    if s.shuttingDown then ret { s with activeConnects := s.activeConnects - 1 } c (some sid) (.err .shuttingDown)
+    else { s with callers := setC s.callers c { s.callers c with pc := .closing sid } }
+
+/-- an `onConnect` handler that does not look at `abandoned` (the tree before fix F16) -/
+def connHandlerU (s : State) (sid : Nat) : State :=
+  match s.pend sid with
+  | some p =>
+    { s with pend := setP s.pend sid none,
+             callers := setC s.callers p.owner { s.callers p.owner with done := some (.ok sid) },
+             io := .connNotify p.owner sid, log := s.log ++ [.hConnect sid, .delivered sid true] }
+  | none => { s with io := .connGlobal sid, log := s.log ++ [.hConnect sid] }
+
+def stepC (cfg : Cfg) (s : State) : Step → State
+  | .cConnect c => if cfg.lockHeld then doConnect s c else { doConnect s c with lock := none }
+  | .cWake c t =>
+    if cfg.closeWindow then doWake s c t
+    else
+      (match (s.callers c).pc, s.lock with
+       | .parked sid _, none =>
+         if (s.callers c).done.isSome || s.shuttingDown || t then afterWaitU s c sid
+         else { s with callers := setC s.callers c { s.callers c with pc := .parked sid false } }
+       | _, _ => s)
+  | .ioStep =>
+    if cfg.handlers then doIoStep s
+    else (match s.io, s.lock with | .connCS sid, none => connHandlerU s sid | _, _ => doIoStep s)
+  | st => step s st
+
+def runC (cfg : Cfg) (s : State) : List Step → State
+  | [] => s
+  | st :: rest => runC cfg (stepC cfg s st) rest
+
+theorem stepC_good {cfg : Cfg} (hg : cfg.Good) (s : State) (st : Step) : stepC cfg s st = step s st := by
+  obtain ⟨h1, h2, h3, _, _⟩ := hg
+  cases st <;> simp [stepC, step, h1, h2, h3]
+
+theorem runC_good {cfg : Cfg} (hg : cfg.Good) : ∀ (steps : List Step) (s : State), runC cfg s steps = run s steps := by
+  intro steps
+  induction steps with
+  | nil => intro s; rfl
+  | cons st rest ih => intro s; simp only [runC, run, stepC_good hg, ih]
+
+/-- is the step enabled (does the thread it belongs to stand at this instruction, and is the mutex available if it needs it)?
+A step that is not enabled is a stutter of `step`; the acceptor answers `disabled` for it instead of silently accepting. -/
+def enabled (s : State) : Step → Bool
+  | .call c _ => (s.callers c).pc == .idle || (s.callers c).pc == .finished
+  | .cancel _ => true
+  | .cEnter c => (s.callers c).pc == .start && s.lock.isNone
+  | .cConnect c | .cRefuse c => (s.callers c).pc == .haveLock
+  | .cRegister c => (match (s.callers c).pc with | .connected _ => true | _ => false)
+  | .cPark c => (match (s.callers c).pc with | .registered _ => true | _ => false)
+  | .cWake c _ => (match (s.callers c).pc with | .parked _ _ => s.lock.isNone | _ => false)
+  | .cClose c => (match (s.callers c).pc with | .closing _ => true | _ => false)
+  | .cRelock c => (match (s.callers c).pc with | .relock _ => s.lock.isNone | _ => false)
+  | .wLoop c _ => (s.callers c).pc == .wloop
+  | .ioPop _ => s.io == .idle && !s.fifo.isEmpty
+  | .ioComplete sid => s.io == .idle && s.eng sid == .connecting
+  | .ioFail sid => s.io == .idle && s.eng sid == .connecting
+  | .ioPeerClose sid => s.io == .idle && s.eng sid == .established
+  | .ioStep => (match s.io with | .idle => false | .connCS _ | .closeCS _ => s.lock.isNone | _ => true)
+  | .fence => s.lock.isNone
 
 end Iora.ConnectSync
